@@ -4,8 +4,10 @@
 (* results cache per sub-query -> merge) as a state machine whose state is *)
 (* the cache.  One step = one range query answered through the chain, or   *)
 (* the loss of one cache entry ("whatever parts of earlier answers were    *)
-(* cached").  Because the state is only the cache (VIEW), TLC explores     *)
-(* every reachable cache content, i.e. histories of unbounded length.      *)
+(* cached").  With MaxHist = 0 the state is only the cache (VIEW), so TLC  *)
+(* explores every reachable cache content, i.e. histories of unbounded     *)
+(* length (used with one split interval covering the grid); with           *)
+(* MaxHist = n every history of at most n queries (several intervals).     *)
 (*                                                                         *)
 (* Checked: every response equals the direct evaluation (action property,  *)
 (* evaluated on every transition) and cached extents only hold what the    *)
@@ -25,6 +27,7 @@ CONSTANTS T,          \* time grid 0..T
           WorldIds,   \* which of the worlds below are explored
           GridFix,    \* TRUE: partition keeps the running start on the request grid (code as fixed)
           Unaligned,  \* TRUE: also step-align off with unaligned queries (exhibits the known finding)
+          MaxHist,    \* 0: histories of any length (state = cache); n > 0: at most n queries per history
           HistLen     \* length of the histories serialised for the harness
 
 (* ---- worlds: series 1 sorts before series 2 ---- *)
@@ -37,9 +40,9 @@ World(i) ==
       [] i = 5 -> <<<<[lo |-> 2, hi |-> T \div 2]>>, <<[lo |-> (T \div 2) + 1, hi |-> T]>>>>  \* hand-over, nothing before 2
       [] OTHER -> <<Always>>
 
-VARIABLES cache, cfg, w, q, resp
-vars == <<cache, cfg, w, q, resp>>
-View == <<cache, cfg, w>>
+VARIABLES cache, cfg, w, q, resp, n
+vars == <<cache, cfg, w, q, resp, n>>
+View == <<cache, cfg, w, IF MaxHist = 0 THEN 0 ELSE n>>
 
 NoQuery == [s |-> -1, e |-> -1, st |-> 1]
 Queries(al) == { [s |-> a, e |-> b, st |-> c] : a \in 0..T, b \in 0..T, c \in StepSet }
@@ -52,10 +55,12 @@ Init ==
     /\ cfg \in { [iv |-> i, minext |-> MinExt, common |-> Common, align |-> al, matching |-> FALSE, gridfix |-> GridFix] :
                     i \in Ivs, al \in (IF Unaligned THEN {TRUE, FALSE} ELSE {TRUE}) }
     /\ w \in { World(i) : i \in WorldIds }
-    /\ q = NoQuery /\ resp = EmptyResp
+    /\ q = NoQuery /\ resp = EmptyResp /\ n = 0
 
 Ask(x) ==
     /\ x.s <= x.e
+    /\ (MaxHist = 0 \/ n < MaxHist)
+    /\ n' = n + 1
     /\ (cfg.align => AlignedQ(x))         \* with step align on, unaligned queries are first rounded to these
     /\ (Unaligned \/ ~KnownFindingCase(cfg, x))
     /\ LET d == FrontendDo(cfg, w, cache, x) IN cache' = d.cache /\ resp' = d.resp
@@ -65,7 +70,7 @@ Ask(x) ==
 Lose(k) ==
     /\ cache' = [j \in DOMAIN cache \ {k} |-> cache[j]]
     /\ q' = NoQuery /\ resp' = EmptyResp
-    /\ UNCHANGED <<cfg, w>>
+    /\ UNCHANGED <<cfg, w, n>>
 
 Next == (\E x \in Queries(cfg.align) : Ask(x)) \/ (\E k \in DOMAIN cache : Lose(k))
 Spec == Init /\ [][Next]_vars
@@ -87,6 +92,6 @@ C42_ExtentsOrdered ==
 CasesFile == IF "VERIF_CASES" \in DOMAIN IOEnv THEN IOEnv.VERIF_CASES ELSE "cases.ndjson"
 GenQ == { x \in Queries(TRUE) : x.s <= x.e /\ AlignedQ(x) }
 Hists == [1..HistLen -> GenQ]
-CaseSet == { [iv |-> i, world |-> wi, hist |-> h] : i \in Ivs, wi \in WorldIds, h \in Hists }
+CaseSet == { [iv |-> i, world |-> wi, minext |-> MinExt, T |-> T, hist |-> h] : i \in Ivs, wi \in WorldIds, h \in Hists }
 ASSUME ndJsonSerialize(CasesFile, SetToSeq(CaseSet))
 =============================================================================
